@@ -17,7 +17,7 @@ PROP = 'C10'
 LEVEL = 'exploration'
 RULE = ('(a) T1/T2/T3/T4/T5 netlists x build styles x all sequences of length <= 2 over {copy, pickle, eliminate_1to1_forks}; '
         '(b) implementation shapes (all bench netlists with <= 2 gates from {AND2, INV1, BUF1} over <= 3 inputs and <= 2 outputs incl. outputs read '
-        'internally, ignored inputs, inputs with many readers, no gates), each as parsed from bench text (ports are forks) and as a hand-built circuit with port cells and named signal forks (Verilog form; port line first/last in the fork), x every subset of connected instance pins x 3 contexts; '
+        'internally, ignored inputs, inputs with many readers, no gates), each as parsed from bench text (ports are forks) and as a hand-built circuit with port cells and named signal forks (Verilog form; port line first/last in the fork), x every subset of connected instance pins x 3 contexts, the circuit pickled before the substitution and round-tripped after it; '
         'every transformation that deletes nodes is followed on the node list (deletion trace) and the circuits include ones whose last node is a state element; '
         '(c) every built-in library cell name x pin subsets (quick: all connected, each single pin open, only one output connected, seed-selected slice of all subsets; '
         'thorough: all subsets) ; distinct_nontrivial = distinct (case, truth tables) signatures with a non-constant function')
